@@ -27,12 +27,47 @@ type Base struct {
 	Dir string
 	H   *gen.History
 	IDs []string
-	anc [][]bool
+	// SameTree: pairs (i, j) of distinct commits with identical trees, j a descendant of i.
+	SameTree [][2]int
+	anc      [][]bool
+}
+
+// NewBaseSameTree is NewBase plus commits whose tree equals the tree of an earlier commit:
+// two empty commits (child with the parent's tree) and one revert followed by a revert of the
+// revert. SameTree lists the (commit, later commit with the identical tree) pairs.
+func NewBaseSameTree(g *gitx.Git, r *rand.Rand, dir string, o gen.HistOpts) (*Base, error) {
+	return newBase(g, r, dir, o, true)
 }
 
 // NewBase generates and imports a history into dir (created).
 func NewBase(g *gitx.Git, r *rand.Rand, dir string, o gen.HistOpts) (*Base, error) {
+	return newBase(g, r, dir, o, false)
+}
+
+func newBase(g *gitx.Git, r *rand.Rand, dir string, o gen.HistOpts, sameTree bool) (*Base, error) {
 	h := gen.RandomHistory(r, o)
+	var same [][2]int
+	if sameTree {
+		n := len(h.Commits)
+		add := func(parent int, tree gen.Tree, msg string) int {
+			c := h.Commits[parent]
+			h.Commits = append(h.Commits, gen.Commit{Parents: []int{parent}, Tree: tree.Clone(), Time: c.Time + 50, ATime: c.Time + 50, Zone: "+0000", Msg: msg + "\n"})
+			return len(h.Commits) - 1
+		}
+		for k := 0; k < 2; k++ {
+			i := r.Intn(n)
+			same = append(same, [2]int{i, add(i, h.Commits[i].Tree, "empty commit")})
+		}
+		for try := 0; try < 20; try++ {
+			i := r.Intn(n)
+			if len(h.Commits[i].Parents) == 0 {
+				continue
+			}
+			rv := add(i, h.Commits[h.Commits[i].Parents[0]].Tree, "revert")
+			same = append(same, [2]int{i, add(rv, h.Commits[i].Tree, "revert of revert")})
+			break
+		}
+	}
 	h.Branches = map[string]int{}
 	for i := range h.Commits {
 		h.Branches[fmt.Sprintf("c%d", i)] = i
@@ -53,7 +88,7 @@ func NewBase(g *gitx.Git, r *rand.Rand, dir string, o gen.HistOpts) (*Base, erro
 	if res := g.Run(dir, "remote", "add", "origin", dir); !res.OK() {
 		return nil, fmt.Errorf("remote add: %s", res)
 	}
-	b := &Base{Dir: dir, H: h, IDs: ids}
+	b := &Base{Dir: dir, H: h, IDs: ids, SameTree: same}
 	n := len(h.Commits)
 	b.anc = make([][]bool, n)
 	for i := 0; i < n; i++ {
